@@ -6,6 +6,7 @@ usage:
   mutcheck.py revert <commit> [C01 ...]              reverse-apply a /repo commit (re-introduces a repaired defect)
   mutcheck.py subst <relpath> <old> <new> [C01 ...]   replace the first occurrence of a text in one file
   mutcheck.py seeded [name ...]                      every /verif/seeded/<name>/patch.diff against all claimed properties
+  mutcheck.py twins [name ...] [-- C01 ...]          every /verif/twins/<name>/patch.diff (behaviour-preserving): any VIOLATION is a false alarm of the checker
   mutcheck.py fixed                                  every `fixed` entry of known_findings.jsonl: revert its commit, its property's check must fire
 The scratch copy lives under $TMPDIR (default /tmp) and is removed afterwards."""
 import json, os, shutil, subprocess, sys, tempfile
@@ -31,11 +32,14 @@ def scratch():
 
 
 def run_checks(d, props, tier="quick"):
-    env = dict(os.environ, UXSA_REPO=d, UXSA_NO_EVIDENCE="1")
+    env = dict(os.environ, UXSA_REPO=d, UXSA_NO_EVIDENCE="1", UXSA_NO_REPLAY="1")
     out = {}
-    for p in props:
+    def one(p):
         rc, txt = sh(f"/venv/bin/python -m uxsa check {p} --tier {tier}", cwd=VERIF, env=env)
-        out[p] = (rc, [l for l in txt.splitlines() if l.startswith(("VIOLATION", "  rule=", "ANALYSIS-"))])
+        return p, (rc, [l for l in txt.splitlines() if l.startswith(("VIOLATION", "  rule=", "ANALYSIS-"))])
+    with ThreadPoolExecutor(4) as ex:
+        for p, r in ex.map(one, props):
+            out[p] = r
     return out
 
 
@@ -101,6 +105,31 @@ def main():
                 meta = json.load(open(os.path.join(VERIF, "seeded", nm, "meta.json")))
                 print(f"{nm} (breaks {meta['property']}): {fmt(res)}")
         return 0
+    if mode == "twins":
+        rest = sys.argv[2:]
+        props = claimed()
+        if "--" in rest:
+            props = rest[rest.index("--") + 1:]
+            rest = rest[:rest.index("--")]
+        names = rest or sorted(os.listdir(os.path.join(VERIF, "twins")))
+        def one(nm):
+            return nm, with_change("patch", os.path.join(VERIF, "twins", nm, "patch.diff"), props)
+        fa = 0
+        with ThreadPoolExecutor(5) as ex:
+            for nm, res in ex.map(one, names):
+                if "apply_failed" in res or "compile_failed" in res:
+                    print(f"{nm}: {res}")
+                    continue
+                alarms = [p for p, (rc, _) in res.items() if rc == 1]
+                inc = [p for p, (rc, _) in res.items() if rc == 2]
+                fa += len(alarms)
+                print(f"{nm}: false_alarms={alarms} incomplete_in={inc}")
+                for p_ in alarms + inc:
+                    for l in res[p_][1]:
+                        if l.startswith("  rule=") or l.startswith("ANALYSIS-"):
+                            print(f"      {p_}: {l.strip()[:260]}")
+        print(f"false_alarms={fa} over {len(names)} twins")
+        return 0 if fa == 0 else 1
     if mode == "fixed":
         recs = [json.loads(l) for l in open(os.path.join(VERIF, "known_findings.jsonl")) if l.strip() and not l.startswith("#")]
         recs = [r for r in recs if r.get("fixed")]
